@@ -146,7 +146,10 @@ def gen_job(rng):
         parser = rng.choice(avail)
     probe['parser'] = parser
     probe['target'] = rng.randint(0, 1)
-    return {'program': program, 'blocked': blocked, 'switches': switches, 'probe': probe}
+    job = {'program': program, 'blocked': blocked, 'switches': switches, 'probe': probe}
+    if rng.random() < 0.2:
+        job['no_dist_info'] = True
+    return job
 
 
 def run_job(job, timeout=120):
@@ -311,11 +314,15 @@ def run_chunk(task, agg):
         agg.count('switches:' + (' '.join(job['switches']) or 'none'))
         for b in job['blocked']:
             agg.count('fault:missing-module:' + b)
+        if job.get('no_dist_info'):
+            agg.count('fault:no-distribution-metadata')
+            if res and res.get('dist_info_lookups'):
+                agg.count('fault_fired:no-distribution-metadata')
         if res:
             for b in res.get('blocked_hit', ()):
                 agg.count('fault_fired:missing-module:' + b)
             agg.add_to_set('init_orders', sig)
-            agg.add_to_set('sigs', fp.h((sig, tuple(job['blocked']), tuple(job['switches']))))
+            agg.add_to_set('sigs', fp.h((sig, tuple(job['blocked']), tuple(job['switches']), bool(job.get('no_dist_info')))))
             first = (res.get('init_order') or ['?'])[0]
             agg.count('first_initialised:' + first)
             agg.count('parser:' + job['probe']['parser'])
@@ -392,7 +399,8 @@ def describe(rec):
     v = rec['violation']
     j = rec['job']
     lines = ['oracle ' + v['oracle'] + ': ' + json.dumps({k: v[k] for k in v if k != 'oracle'}, default=str)[:700]]
-    lines.append('fresh interpreter: ' + ' '.join([PY] + j['switches']) + f"   absent modules: {j['blocked'] or 'none'}")
+    lines.append('fresh interpreter: ' + ' '.join([PY] + j['switches']) + f"   absent modules: {j['blocked'] or 'none'}"
+                 + ('   (no installed distribution metadata for soupsieve)' if j.get('no_dist_info') else ''))
     for i, s in enumerate(j['program']):
         lines.append(f'  {i}: {s}')
     lines.append('probe: ' + json.dumps(j['probe'])[:400])
@@ -441,6 +449,10 @@ def minimise_record(rec, budget_n=40):
         if job['switches']:
             c = json.loads(json.dumps(job))
             c['switches'] = []
+            cands.append(c)
+        if job.get('no_dist_info'):
+            c = json.loads(json.dumps(job))
+            c.pop('no_dist_info')
             cands.append(c)
         if job['probe']['parser'] != 'html.parser' and not job['probe'].get('namespaces'):
             c = json.loads(json.dumps(job))
